@@ -164,7 +164,7 @@ def post_volume(ctx, call):
     # the library takes a square root of a float (Cayley-Menger) determinant: near-degenerate simplices are compared in volume^2 with the
     # rounding bound eps * (Hadamard bound of the Gram determinant)
     had = float(np.prod(np.sum(E * E, axis=1))) / math.factorial(k) ** 2
-    ok = abs(got - want) <= 1e-7 * max(1.0, want) or abs(got * got - float(want2)) <= 1e-11 * had
+    ok = abs(got - want) <= 1e-7 * max(1.0, want) or (got >= 0 and abs(got * got - float(want2)) <= 1e-11 * had)  # (a volume is never negative)
     ctx.judge("volume", ok, [P], what=f"Simplex.volume = {got}, Gram-determinant volume {want}", op="Simplex.volume", feat={"k": k, "dim": P.shape[1]}, nontrivial=True)
 
 
